@@ -22,6 +22,11 @@ type Case struct {
 	S string   `json:"s,omitempty"` // template string
 	// Fam is the stress family of a generated template (key material), empty otherwise
 	Fam string `json:"fam,omitempty"`
+	// ctx: the flow shape, the label of the HTTP answer and whether the session is marshalled and read
+	// back before the resume; S, when set, is the one template to evaluate instead of the derived corpus
+	Flow    string `json:"flow,omitempty"`
+	Body    string `json:"body,omitempty"`
+	Restart bool   `json:"restart,omitempty"`
 }
 
 // Sig is the static danger signature of a case: for calls and forms the magnitude class of each
@@ -105,8 +110,9 @@ var Forms = []Form{
 
 // Group is a contiguous block of the case space: the unit handed to an isolated child process.
 type Group struct {
-	Kind   string `json:"kind"` // call | form | xexp | chars | tokens | stress
-	Name   string `json:"name,omitempty"`
+	Kind   string `json:"kind"`           // call | form | xexp | chars | tokens | stress | ctx
+	Name   string `json:"name,omitempty"` // ctx: the flow shape
+	Body   string `json:"body,omitempty"` // ctx: label of the HTTP answer
 	Test   bool   `json:"test,omitempty"`
 	Arity  int    `json:"arity,omitempty"`
 	Alpha  string `json:"alpha,omitempty"`  // full | core | mini
@@ -118,7 +124,7 @@ type Group struct {
 }
 
 func (g Group) ID() string {
-	return fmt.Sprintf("%s/%s/%d/%s/%v/%d/%d/%d", g.Kind, g.Name, g.Arity, g.Alpha, g.Danger, g.Len, g.Prefix, g.Part)
+	return fmt.Sprintf("%s/%s/%d/%s/%v/%d/%d/%d", g.Kind, g.Name+g.Body, g.Arity, g.Alpha, g.Danger, g.Len, g.Prefix, g.Part)
 }
 
 // Positional reports whether signatures of this group are per argument position.
@@ -385,6 +391,8 @@ func (g Group) Size(tier string) int {
 		return ipow(len(TokenVocab), g.Len-1)
 	case "stress":
 		return len(stressCases())
+	case "ctx":
+		return 2 // the session kept in memory, the session marshalled and read back
 	}
 	panic("c04: unknown group kind " + g.Kind)
 }
@@ -441,6 +449,7 @@ func Groups(tier string) []Group {
 	}
 	gs = append(gs, Group{Kind: "tokens", Danger: true, Prefix: -1})
 	gs = append(gs, Group{Kind: "stress", Danger: true, Prefix: -1})
+	gs = append(gs, ctxGroups()...)
 	return gs
 }
 
@@ -456,6 +465,11 @@ func (g Group) cost(tier string) int {
 		n *= 12
 	case "xexp", "stress":
 		n = 20000000
+	case "ctx":
+		n = 600000
+		if g.Name == "webhook-in-child" {
+			n *= 2
+		}
 	}
 	if g.Danger {
 		n += 4000000
@@ -509,6 +523,7 @@ type decoded struct {
 	s    string // template
 	fam  string
 	sig  Sig
+	ctx  *Case // ctx: the context
 }
 
 // decoder decodes indices of one group (keeps per-group tables).
@@ -628,12 +643,17 @@ func (d *decoder) at(i int) decoded {
 	case "stress":
 		s := d.strs[i]
 		return decoded{s: s.s, fam: s.fam, sig: Sig{s.fam}}
+	case "ctx":
+		return decoded{ctx: &Case{K: "ctx", Flow: g.Name, Body: g.Body, Restart: i == 1}}
 	}
 	panic("c04: unknown group kind")
 }
 
 // toCase renders a decoded case as a replayable Case.
 func (d *decoder) toCase(dc decoded) Case {
+	if dc.ctx != nil {
+		return *dc.ctx
+	}
 	if dc.s != "" || d.g.Kind == "chars" || d.g.Kind == "tokens" || d.g.Kind == "stress" {
 		return Case{K: "tpl", S: dc.s, Fam: dc.fam}
 	}
